@@ -19,7 +19,7 @@ import (
 // size and a worker-count parameter, into a harness store whose keys may be
 // symbolic (block / table ids are the injective hash UF over symbolic content).
 
-var zzPKs = [][]uint32{nil, {0}, {1}, {0, 1}, {1, 0}}
+var zzPKs = [][]uint32{nil, {0}, {1}, {0, 1}, {1, 0}, {2, 0, 1}, {1, 2, 0}}
 
 func zzCells(name string, nrows, ncols, cellLen int) [][]string {
 	in := make([][]string, nrows)
